@@ -42,6 +42,10 @@ pub fn transcript_step(s: &mut Sess<LS, ()>, op: &Op, run: &Run) -> String {
             }
             out
         }
+        "dump" => {
+            let text = crate::exec::capture_stdout(|| s.eg.dump());
+            format!("dump {text}")
+        }
         "match" => {
             let t = &op.t[0];
             // pattern: the term with its kids replaced by variables
@@ -184,6 +188,9 @@ impl Check for ReproCheck {
             }
         }
         ops.push(Op::new("probe"));
+        if w.chance(1, 2) {
+            ops.push(Op::new("dump"));
+        }
         if w.chance(1, 2) {
             ops.push(Op::new("extract"));
         }
